@@ -97,6 +97,27 @@ pub fn op_history(case: &J) -> J {
         .collect();
     let snap0 = snapshot(&ctx, &names);
     let dbg0: Vec<String> = progs.iter().map(|p| format!("{:?}", p)).collect();
+    // solo baseline: every program executed alone, in a thread of its own that has no history
+    // (thread-local state dies with the thread), against a context of its own
+    let mut solo: Vec<J> = vec![];
+    for p in &progs {
+        let r = std::thread::scope(|s| {
+            s.spawn(|| {
+                crate::install_panic_hook();
+                match build_context(case) {
+                    Ok(fresh) => {
+                        hostfns::log_reset();
+                        let r = guarded(|| enc_result(&p.execute(&fresh)));
+                        json!({"res": r, "log": hostfns::log_take()})
+                    }
+                    Err(e) => json!({"harness_err": e}),
+                }
+            })
+            .join()
+            .unwrap_or_else(|_| json!({"panic": "solo thread panicked"}))
+        });
+        solo.push(r);
+    }
     let mut earlier: Vec<(Value, J)> = vec![];
     let mut steps = vec![];
     let seq: Vec<usize> = case["seq"]
@@ -170,10 +191,39 @@ pub fn op_history(case: &J) -> J {
         }));
     }
     drop(held);
-    json!({"steps": steps, "snap0": snap0, "nvars": names.len(), "held": hold, "tracked": track})
+    json!({"steps": steps, "snap0": snap0, "nvars": names.len(), "held": hold, "tracked": track, "solo": solo})
 }
 
 static TICKET: AtomicU64 = AtomicU64::new(0);
+
+/// Canonical form of an encoded value for comparisons: map entries sorted (iteration order of a
+/// map is unspecified and differs between equal maps), NaN payload / sign ignored.
+fn canon(j: &J) -> J {
+    match j {
+        J::Object(o) => {
+            let mut out = serde_json::Map::new();
+            for (k, v) in o {
+                if k == "m" {
+                    let mut es: Vec<J> = v.as_array().map(|a| a.iter().map(canon).collect()).unwrap_or_default();
+                    es.sort_by_key(|e| e.to_string());
+                    out.insert(k.clone(), J::Array(es));
+                } else if k == "d" {
+                    let bits = v.as_u64().unwrap_or(0);
+                    if f64::from_bits(bits).is_nan() {
+                        out.insert(k.clone(), json!("NaN"));
+                    } else {
+                        out.insert(k.clone(), v.clone());
+                    }
+                } else {
+                    out.insert(k.clone(), canon(v));
+                }
+            }
+            J::Object(out)
+        }
+        J::Array(a) => J::Array(a.iter().map(canon).collect()),
+        other => other.clone(),
+    }
+}
 
 fn xorshift(x: &mut u64) -> u64 {
     *x ^= *x << 13;
@@ -276,7 +326,9 @@ pub fn op_conc(case: &J) -> J {
     let mut sample = vec![];
     for r in &recs {
         let (solo, solo_log) = run_one(&progs[r.prog], &root, r.thread, r.seq);
-        if solo != r.res || solo_log != r.log {
+        if canon(&solo) != canon(&r.res)
+            || canon(&J::Array(solo_log.clone())) != canon(&J::Array(r.log.clone()))
+        {
             mismatches.push(json!({
                 "thread": r.thread, "seq": r.seq, "prog": r.prog,
                 "conc": r.res, "solo": solo, "conc_log": r.log, "solo_log": solo_log,
